@@ -187,11 +187,18 @@ def run(ctx):
     shared.eligible_bucket_rules(ctx, "R8", "guard")
     # ---- R7 a transition shared by several regions is selected once ---------------------
     sel = roles(ctx, "Interpreter").select
-    from sa.util import returned_name
+    from sa.util import returned_name, expand_names as expand_names_
     SEL = returned_name(sel, "selected")
     apps = [x for x in own_nodes(sel.node) if isinstance(x, ast.Call) and isinstance(x.func, ast.Attribute) and x.func.attr == "append"
             and dotted(x.func.value) == SEL]
-    c.expect("R7", "appends to the selection list", len(apps), 1, sel, "the winner of a leaf is no longer appended to the selection: nominated transitions never fire")
+    # the same selection kept in a dict keyed by identity:  winners.setdefault(id(winner), winner)  - recording and de-duplication in one step
+    keyed = [x for x in own_nodes(sel.node) if isinstance(x, ast.Call) and isinstance(x.func, ast.Attribute) and x.func.attr == "setdefault" and len(x.args) == 2
+             and isinstance(x.args[0], ast.Call) and isinstance(x.args[0].func, ast.Name) and x.args[0].func.id == "id" and x.args[0].args
+             and norm(x.args[0].args[0]) == norm(x.args[1])
+             and any(isinstance(r_, ast.Return) and r_.value is not None and (norm(x.func.value) + ".values()") in norm(expand_names_(sel, r_.value)) for r_ in own_nodes(sel.node))] if not apps else []
+    for x in keyed:
+        c.ob("R7", True, sel, "selected-once-by-identity", "winners are kept in a dict keyed by their identity: a shared winner is stored once", x)
+    c.expect("R7", "appends to the selection list", len(apps) + len(keyed), 1, sel, "the winner of a leaf is no longer appended to the selection: nominated transitions never fire")
     for x in apps:
         ok = False
         for a, pol in guards_at(sel, x):
